@@ -57,7 +57,8 @@ def kani_part(name, runner):
     if r['failed'] and r['unwinding'] and r['cbmc_checks_failed'] == len(r['failed']):
         raise Undecided('only unwinding assertions failed in %s: bound too small for the current code' % r['failed'])
     return {
-        'name': name, 'engine': 'kani+cbmc', 'obligations': r['cbmc_checks'], 'discharged': r['cbmc_checks'] - r['cbmc_checks_failed'],
+        'name': name, 'engine': 'kani+cbmc', 'is_bounded': bool(r.get('bounded')),
+        'obligations': r['cbmc_checks'], 'discharged': r['cbmc_checks'] - r['cbmc_checks_failed'],
         'failed': ['%s::%s' % (name, f) for f in r['failed']], 'kinds': ['kani harness failed'] if r['failed'] else [],
         'detail': (r['fail_detail'] + '\n' + r['raw_tail'])[:4000] if r['failed'] else '',
         'evidence': {'harnesses': r.get('names'), 'harnesses_verified': r['ok'], 'cbmc_checks': r['cbmc_checks'],
@@ -67,7 +68,11 @@ def kani_part(name, runner):
 
 def run(pid, tier, seed, cfg):
     t0 = time.time()
-    parts = [p(tier) for p in cfg['parts']]
+    # parts are independent (different units / scratch copies): run them concurrently
+    from concurrent.futures import ThreadPoolExecutor
+    with ThreadPoolExecutor(max_workers=len(cfg['parts'])) as ex:
+        futs = [ex.submit(p, tier) for p in cfg['parts']]
+        parts = [f.result() for f in futs]
     failed = [f for p in parts for f in p['failed']]
     violations = []
     info = None
@@ -83,9 +88,13 @@ def run(pid, tier, seed, cfg):
         detail = '\n'.join(p['detail'] for p in parts if p['detail'])[:8000]
         violations.append(Violation(pid, '+'.join(failed) + ('[' + ';'.join(kinds)[:120] + ']' if kinds else ''), detail, w,
                                     key='+'.join(failed), replay_kind='args'))
+    proved = [p for p in parts if not p.get('is_bounded')]
+    bounded = [p for p in parts if p.get('is_bounded')]
     cov = {
-        'obligations': sum(p['obligations'] for p in parts),
-        'discharged': sum(p['discharged'] for p in parts),
+        # bounded stand-ins are reported separately and never counted as proved
+        'obligations': sum(p['obligations'] for p in proved),
+        'discharged': sum(p['discharged'] for p in proved),
+        'bounded_stand_ins': {p['name']: {'checks': p['obligations'], 'passed': p['discharged'], 'bound': p['evidence'].get('bounded')} for p in bounded},
         'checker_cmd': cfg.get('checker_cmd', 'verus build/<unit>.rs --output-json --time  /  cargo kani (scratch copy)'),
         'trusted_base': core.TRUSTED_BASE + cfg.get('trusted_extra', []),
         'back_ends': {p['name'] + ' (' + p['engine'] + ')': p['obligations'] for p in parts},
